@@ -450,6 +450,9 @@ def check(pid, tier, seed):
     if units is None:
         print(f'property {pid} has no check (see MANIFEST not_applicable)')
         return 2
+    only = os.environ.get('VF_ONLY')     # development aid: run the units whose name contains this; evidence is not rewritten
+    if only:
+        units = [u for u in units if only in u['name']]
     FE = Frontend()
     frontend_note = FE.adaptations
     nproc = int(os.environ.get('VF_JOBS', '16'))
@@ -497,7 +500,8 @@ def check(pid, tier, seed):
     for u in unconfirmed:
         inconclusive.append(f'{u["unit"]}: counterexample {u["kind"]} site={u["site"]} did not reproduce natively ({u["native"][:200]})')
     wall = time.time() - t0
-    write_evidence(pid, tier, seed, results, violations, known_hits, inconclusive, unconfirmed, wall, frontend_note, witness_ok)
+    if not only:
+        write_evidence(pid, tier, seed, results, violations, known_hits, inconclusive, unconfirmed, wall, frontend_note, witness_ok)
     for what, us in known_hits.items():
         print(f'KNOWN-FINDING: property={pid} {what} [{len(us)} unit(s)]')
     for v in violations:
